@@ -1,8 +1,9 @@
 package rules
 
 import (
-	"go/constant"
 	"fmt"
+	"go/constant"
+	"regexp"
 	"strings"
 	"text/template/parse"
 
@@ -89,10 +90,12 @@ func init() {
 		g := g
 		for _, p := range g.props {
 			addRule(p, &core.Rule{ID: p + "." + g.suffix, Floor: 3, Run: func(c *core.Ctx) { tmplTableRule(c, g) },
-				Doc: "Template table of " + g.what + ": the parse tree of the templates, flattened to rows (define name | chain of enclosing if/range/with pipelines | printed text, pipeline or template call; white space collapsed), equals the table generated from the reviewed tree (rules/tmpl_gen.go). The templates are the last step before HAProxy: a directive that is no longer printed, is printed under another condition or with another value changes the behaviour of a correct model. Comments and re-indentation change no row."})
+				Doc: "Template table of " + g.what + ": the parse tree of the templates, flattened to rows (define name | chain of enclosing if/range/with pipelines | printed text, pipeline or template call; white space collapsed), equals the table generated from the reviewed tree (rules/tmpl_gen.go). The templates are the last step before HAProxy: a directive that is no longer printed, is printed under another condition or with another value changes the behaviour of a correct model. Comments and re-indentation change no row. Within a definition the rows are a multiset, except those that print request/response rules and backend selections (http-request, http-response, tcp-request, tcp-response, use_backend, use-server, redirect), which HAProxy evaluates in the order written: their sequence equals the reviewed one."})
 		}
 	}
 }
+
+var orderedDirective = regexp.MustCompile(`\b(http-request|http-response|http-after-response|tcp-request|tcp-response|use_backend|use-server|redirect) `)
 
 func tmplTableRule(c *core.Ctx, g tmplGroup) {
 	n := 0
@@ -149,6 +152,36 @@ func tmplTableRule(c *core.Ctx, g tmplGroup) {
 			}
 			c.Check(len(missing) == 0 && len(extra) == 0, "template "+f[strings.LastIndex(f, "/")+1:]+" define "+tree+" prints the reviewed rows", f, fmt.Sprintf("%d rows", len(w[tree])),
 				"rows that disappeared: ["+clip(strings.Join(missing, " ;; "), 700)+"]; new rows: ["+clip(strings.Join(extra, " ;; "), 700)+"]")
+			// HAProxy evaluates request/response rules and backend selections in the order they are written:
+			// the rows that print such directives keep their order (the other rows are settings: a set)
+			if len(missing) == 0 && len(extra) == 0 {
+				seq := func(rows []string) []string {
+					var out []string
+					for _, r := range rows {
+						t := r
+						if i := strings.Index(r, " | "); i >= 0 {
+							t = r[:i]
+						}
+						if t == tree && orderedDirective.MatchString(r) {
+							out = append(out, r)
+						}
+					}
+					return out
+				}
+				ws, hs := seq(want), seq(got)
+				same := len(ws) == len(hs)
+				first := ""
+				for i := 0; same && i < len(ws); i++ {
+					if ws[i] != hs[i] {
+						same = false
+						first = fmt.Sprintf("position %d is now [%s], reviewed [%s]", i, clip(hs[i], 200), clip(ws[i], 200))
+					}
+				}
+				if len(ws) > 0 {
+					c.Check(same, "template "+f[strings.LastIndex(f, "/")+1:]+" define "+tree+" prints its rules in the reviewed order", f, fmt.Sprintf("%d ordered rows", len(ws)),
+						"the order of request/response rules or backend selections changed: "+first)
+				}
+			}
 		}
 	}
 	c.Check(n >= 1, "template definitions compared ("+g.suffix+")", "", fmt.Sprintf("%d", n), "no template definition compared")
